@@ -275,6 +275,8 @@ pub fn rich_templates() -> Vec<(String, String)> {
         ("text.html".into(), "only text é 日本".into()),
         ("err.html".into(), "before{{ 1 / 0 }}after".into()),
         ("blob.html".into(), "{{ blob }}|{{ [blob] }}|{% for b in blobs %}<{{ b }}>{% endfor %}|{{ blob | safe }}{% set c %}{{ blob }}{% endset %}{{ c }}".into()),
+        // maps built while rendering print in sorted key order whatever their hash order: repeating the render gives the same bytes
+        ("maps.html".into(), "{{ {true: title, false: n} }}|{{ {2: 1, 1: 2, \"k\": 3, true: 4, false: 5, \"a\": [n], 10: none} }}|{{ {\"b\": {true: 1, false: 2}, \"a\": {3: 1, 1: 3} } }}|{% set m = {false: 0, true: 1} %}{{ m }}{{ [m, m] }}".into()),
         ("blob.txt".into(), "{{ blob }}{% include \"blob.html\" %}{{ blobs }}".into()),
         ("err_in_include.html".into(), "A{% include \"err.html\" %}B".into()),
     ]
@@ -296,7 +298,7 @@ pub fn rich_context(variant: u64) -> tera::Context {
     c
 }
 pub fn rich_requests() -> Vec<Req> {
-    let mut v: Vec<Req> = ["base.html", "page.html", "foot.html", "deep.txt", "plain.txt", "empty.html", "text.html", "err.html", "err_in_include.html", "lib.html", "nope.html", "blob.html", "blob.txt"].iter().map(|s| Req::Template(s.to_string())).collect();
+    let mut v: Vec<Req> = ["base.html", "page.html", "foot.html", "deep.txt", "plain.txt", "empty.html", "text.html", "err.html", "err_in_include.html", "lib.html", "nope.html", "blob.html", "blob.txt", "maps.html"].iter().map(|s| Req::Template(s.to_string())).collect();
     for (t, b) in [("page.html", "head"), ("page.html", "body"), ("page.html", "inner"), ("base.html", "body"), ("base.html", "head"), ("page.html", "nope")] {
         v.push(Req::Block(t.into(), b.into()));
     }
